@@ -94,8 +94,9 @@ def amount_text_equals(text, z):
 # ------------------------------------------------------------------------------------------
 # small codecs
 
-def pct_decode_strict(v):
-    """*qchar -> bytes, or None if a character is outside qchar or an escape is malformed."""
+def pct_decode_strict(v, why=None):
+    """*qchar -> bytes, or None if a character is outside qchar or an escape is malformed
+    (`why`, if given, is a list that receives the reason)."""
     out = bytearray()
     i = 0
     while i < len(v):
@@ -105,8 +106,12 @@ def pct_decode_strict(v):
                 out.append(int(v[i + 1:i + 3], 16))
                 i += 3
                 continue
+            if why is not None:
+                why.append("malformed-percent-escape")
             return None
         if c not in QCHAR_LITERAL:
+            if why is not None:
+                why.append("character-outside-qchar")
             return None
         out.append(ord(c))
         i += 1
@@ -277,6 +282,8 @@ def rules(uri, kinds):
         kind = None
         if a is None:
             broken.append("missing-recipient")
+        elif a == "":
+            broken.append("invalid-recipient")
         else:
             kind = kinds.get(a)
             if kind is None:
@@ -362,9 +369,10 @@ def _strict_param(piece):
         if name.startswith("req-") and (len(name) == 4 or name[4] not in ALPHA):
             return False, "reqparam-name"
         if eq:
-            b = pct_decode_strict(value)
+            why = []
+            b = pct_decode_strict(value, why)
             if b is None:
-                return False, "qchar"
+                return False, why[0]
             try:
                 b.decode("utf-8")
             except UnicodeDecodeError:
